@@ -1,4 +1,5 @@
 import argparse
+import ast
 import importlib
 import json
 import os
@@ -86,6 +87,63 @@ def selfvalidate(rep, pid):
         print(f"[{pid}] seeded changes: {len(sres)}, detected {rep.analysed['seeded_changes_detected']}, stale {rep.analysed['seeded_changes_stale']}")
 
 
+def live_functions(M):
+    """functions some public entry of the package can reach. Roots: every function or method whose own name is public (or a dunder), and
+    everything module-level code mentions. An edge goes from a function to *every* package function whose name it mentions, as a call or as
+    a value (callbacks, keys, properties) - resolution by name only, so the set over-approximates what can run."""
+    fns = M.functions()
+    by_name = {}
+    for q in fns:
+        by_name.setdefault(q.rsplit(".", 1)[1], set()).add(q)
+
+    def mentions(node):
+        out = set()
+        for x in ast.walk(node):
+            n = x.id if isinstance(x, ast.Name) else x.attr if isinstance(x, ast.Attribute) else None
+            if n in by_name:
+                out |= by_name[n]
+        return out
+    live, work = set(), []
+    for q, d in fns.items():
+        n = q.rsplit(".", 1)[1]
+        if not n.startswith("_") or (n.startswith("__") and n.endswith("__")):
+            work.append(q)
+    for m, tree in M.mods.items():
+        for st in tree.body:
+            if not isinstance(st, (ast.FunctionDef, ast.AsyncFunctionDef, ast.ClassDef)):
+                work.extend(mentions(st))
+    while work:
+        q = work.pop()
+        if q in live:
+            continue
+        live.add(q)
+        work.extend(mentions(fns[q]))
+    return live
+
+
+def out_of_reach(rep, M, pid):
+    """a reported construct inside a function nothing public can reach (dead code) cannot break any property: it is listed as a note, not as a
+    violation. Which *property* a live construct matters to is the business of each rule's own scoping (symrules.observed_scope and friends)."""
+    if os.environ.get("VERIF_NO_REACH") or not rep.bad:
+        return
+    live = live_functions(M)
+    fns = M.functions()
+    if len(live) < 0.5 * len(fns):
+        raise AnalysisError(f"liveness: only {len(live)} of {len(fns)} functions reachable from the public surface - the model of the package is broken")
+    keep = []
+    for b in rep.bad:
+        w = b.get("where") or ""
+        q = "matid." + w.rsplit("(", 1)[1].rstrip(")") if w.endswith(")") and "(" in w else None
+        top = q
+        while top in fns and M.parent.get(top) in fns:
+            top = M.parent[top]
+        if top in fns and top not in live:
+            rep.note(f"{b['rule']}: {b['construct']}: in dead code ({w}: nothing reachable from the public surface of the package mentions it): {b['msg'][:160]}")
+        else:
+            keep.append(b)
+    rep.bad[:] = keep
+
+
 def main(argv=None):
     ap = argparse.ArgumentParser()
     ap.add_argument("pid")
@@ -116,6 +174,7 @@ def main(argv=None):
             rep.rule(rid, "the built-in symmetry tables the library uses at run time are the literals of the table file (no import-time code of "
                           "the table module rewrites their values; shared with C14.readonly)")
             symrules.tables_read_only(rep, ctx.model, rid, only_import=True)
+        out_of_reach(rep, ctx.model, pid)
     except AnalysisError as e:
         rep.error(str(e))
     except Exception as e:  # a traceback must never look like a verdict
